@@ -741,6 +741,17 @@ def fam_resubscribe(g, prefix, n_random):
             steps = [["subject", "a", "plain"], ["def", "x", p], ["sub", ["ref", "x"], NOREACT], ["hnext", "a", "1"], ["hnext", "a", "2"],
                      ["sub", ["ref", "x"], NOREACT], term]
             out.append(case("%s-hot-%d" % (prefix, i), steps)); i += 1
+    # combinators over TWO hot inputs, subscribed twice with the inputs arriving in a DIFFERENT order in the second
+    # subscription (the first one still live, or already unsubscribed): decisions (winner, gate, latest values, queues)
+    # belong to a subscription
+    for c in ("amb", "merge", "zip", "combine_latest", "sequence_equal", "take_until", "skip_until", "sample", "switch_on_next", "concat"):
+        for mid in ([], [["unsub", "0"]]):
+            for inner in (lambda q: q, lambda q: ["map", "inc", q]):
+                g.tag = 0
+                p = g.combine_named(c, inner(["ref", "a"]), [inner(["ref", "b"])], hot=("a", "b"))
+                steps = ([["subject", "a", "plain"], ["subject", "b", "plain"], ["def", "x", p], ["sub", ["ref", "x"], NOREACT], ["hnext", "a", "1"], ["hnext", "b", "2"]] + mid +
+                         [["sub", ["ref", "x"], NOREACT], ["hnext", "b", "3"], ["hnext", "a", "4"], ["hnext", "b", "5"], ["hcomplete", "b"], ["hnext", "a", "6"], ["hcomplete", "a"]])
+                out.append(case("%s-hot-%d" % (prefix, i), steps)); i += 1
     return out
 
 def fam_release(g, prefix, n_random):
